@@ -8,6 +8,9 @@ Tie to the source:
      themselves contracted by NumPy from the leaves' site tensors.  `measure_overlap` / `measure_mpo` (single MPO, sums
      of MPOs through lists, periodic MPOs) and environments closed at every bond are compared with `np.vdot` of dense
      vectors.  `mps_from_tensor`, `zipper`, `compression_` without truncation reproduce the dense object (1e-9).
+     Product leaves are requested from product_mps / product_mpo in every documented call form (exactly N tensors, more tensors than
+     sites with N given, fewer tensors than sites = cyclic filling, one bare tensor; N default / keyword / positional) and their
+     reference is NOT their own site tensors but the outer product of the SUPPLIED local tensors number n mod Nv at site n (exact).
      Composition is explored in depth: half of the steps consume the result of the previous step (mostly combining it with a
      differently produced object: (a@b) - c, (G@H)@c + (a+b)@c, ...), N = 1 and N = 2 carry extra weight, and a 'sectors' flavour
      builds charged product operators that map one charge sector onto another (with states in both sectors) and favours
@@ -83,6 +86,71 @@ def _ints(g, size, cplx, lo=-3, hi=3):
     return d
 
 
+class LeafRejected(Exception):
+    """the generator proposed a leaf that does not exist (not a failure of the real code)"""
+
+
+def product_locals(U, leaf):
+    """the local vectors / operators SUPPLIED to product_mps / product_mpo (one per entry of leaf['ts'] / leaf['qs'], every one with
+    its own integer data, so that equal charges at different positions are still distinguishable)"""
+    import yastn
+    g = np.random.default_rng(leaf["seed"])
+    cfg, lp = U.cfg, U.lp
+    out = []
+    if leaf["kind"] == "product_mps":
+        for t in leaf["ts"]:
+            t = tuple(t)
+            D = lp.D[lp.t.index(t)]
+            v = yastn.Tensor(config=cfg, s=(lp.s,), n=t, dtype='complex128' if leaf["cplx"] else 'float64')
+            v.set_block(ts=(t,), Ds=(D,), val=_ints(g, D, leaf["cplx"]))
+            out.append(v)
+    else:
+        for q in leaf["qs"]:
+            o = yastn.ones(cfg, legs=[lp, lp.conj()], n=tuple(q))
+            if o.size == 0:
+                raise LeafRejected("empty local operator")
+            o._data = _ints(g, o.size, leaf["cplx"])
+            out.append(o)
+    return out
+
+
+def product_call(U, leaf, locs):
+    """call product_mps / product_mpo in the form recorded in the leaf: the tensors as a list / tuple / one bare tensor, the number
+    of sites left to the default (= number of tensors) or given explicitly (keyword or positional) — then the documented semantics
+    is that the tensors are assigned to consecutive sites from the first one, cyclically iterated to fill N sites"""
+    import yastn.tn.mps as mps
+    fn = mps.product_mps if leaf["kind"] == "product_mps" else mps.product_mpo
+    arg = locs[0] if leaf.get("bare") else tuple(locs) if leaf.get("tuple") else locs
+    narg = leaf.get("Narg")         # None: default; "kw": N=...; "pos": second positional argument
+    if not narg:
+        return fn(arg)
+    return fn(arg, N=U.N) if narg == "kw" else fn(arg, U.N)
+
+
+def product_reference(U, leaf):
+    """dense object a product leaf has to represent, independent of the MPS code: factor x outer product over the sites n = 0..N-1
+    of the dense SUPPLIED local tensor number n mod Nv (docstrings of product_mps / product_mpo: 'assigned to consecutive sites',
+    'cyclicly iterated to fill in N sites'); returns (reference, reference built from absolute values)"""
+    locs = product_locals(U, leaf)
+    if leaf["kind"] == "product_mps":
+        dl = [v.to_numpy(legs={0: U.lp}) for v in locs]
+    else:
+        dl = [o.to_numpy(legs={0: U.lp, 1: U.lp.conj()}) for o in locs]
+    fac = float(Fraction(*leaf["factor"]))
+    ref, ab = np.array(fac), np.array(fac)
+    for n in range(U.N):
+        ref = np.multiply.outer(ref, dl[n % len(dl)])
+        ab = np.multiply.outer(ab, np.abs(dl[n % len(dl)]))
+    return ref, ab
+
+
+def product_form(leaf, N):
+    """compact label of the call form (evidence histogram)"""
+    nv = len(leaf["ts"] if leaf["kind"] == "product_mps" else leaf["qs"])
+    rel = "Nv<N" if nv < N else "Nv=N" if nv == N else "Nv>N"
+    return rel + (":bare" if leaf.get("bare") else "") + (":N-given" if leaf.get("Narg") else ":N-default")
+
+
 def build_leaf(U, leaf):
     """deterministically build one input MPS/MPO (real object) from its spec"""
     import yastn
@@ -92,24 +160,8 @@ def build_leaf(U, leaf):
     g = np.random.default_rng(seed)
     U.ops.random_seed(seed=seed)
     cfg, lp, N = U.cfg, U.lp, U.N
-    if kind == "product_mps":
-        vecs = []
-        for t in leaf["ts"]:
-            t = tuple(t)
-            D = lp.D[lp.t.index(t)]
-            v = yastn.Tensor(config=cfg, s=(lp.s,), n=t, dtype='complex128' if leaf["cplx"] else 'float64')
-            v.set_block(ts=(t,), Ds=(D,), val=_ints(g, D, leaf["cplx"]))
-            vecs.append(v)
-        x = mps.product_mps(vecs)
-    elif kind == "product_mpo":
-        opsl = []
-        for q in leaf["qs"]:
-            o = yastn.ones(cfg, legs=[lp, lp.conj()], n=tuple(q))
-            if o.size == 0:
-                raise ValueError("empty local operator")
-            o._data = _ints(g, o.size, leaf["cplx"])
-            opsl.append(o)
-        x = mps.product_mpo(opsl)
+    if kind in ("product_mps", "product_mpo"):
+        x = product_call(U, leaf, product_locals(U, leaf))
     elif kind == "random_mps":
         x = mps.random_mps(U.I, n=tuple(leaf["n"]), D_total=leaf["D"], sigma=leaf.get("sigma", 1))
         for n in range(N):
@@ -385,27 +437,59 @@ def total_charge(U, ts):
     return tuple(int(v) for v in sym.add_charges(*[tuple(t) for t in ts]))
 
 
+def rand_opcharge(U, rng):
+    """charge b - a of a local operator that has at least the block (b, a)"""
+    a, b = rng.choice(U.charges()), rng.choice(U.charges())
+    return [int(v) for v in U.cfg.sym.add_charges(tuple(b), tuple(a), signatures=(1, -1), new_signature=1)]
+
+
+def choose_product_form(U, rng, leaf, eff, extra):
+    """HOW the product state / operator with the per-site configuration eff (length N) is requested from product_mps / product_mpo:
+    exactly N tensors (N left to the default, or given), MORE tensors than sites with N given (the surplus ones, drawn by extra(),
+    must be ignored), FEWER tensors than sites (a period of eff: cyclic filling, also when the period does not divide N), one bare
+    tensor (N = 1 or constant eff).  The supplied sequence is stored under 'ts' / 'qs'; the effective configuration stays eff."""
+    N = len(eff)
+    eff = [list(e) for e in eff]
+    periods = [p for p in range(1, N) if all(eff[n] == eff[n % p] for n in range(N))]
+    forms = ["exact", "exact", "exact+N", "longer", "longer"]
+    if periods:
+        forms += ["cyclic"] * 3
+    if N == 1:
+        forms += ["bare", "bare+N"]
+    form = rng.choice(forms)
+    sup = eff
+    if form == "longer":
+        sup = eff + [list(extra()) for _ in range(rng.choice([1, 1, 2, 3, N]))]
+    elif form == "cyclic":
+        p = rng.choice(periods)
+        sup = eff[:p]
+        if p == 1 and rng.random() < 0.5:
+            leaf["bare"] = True
+    elif form in ("bare", "bare+N"):
+        leaf["bare"] = True
+    if form != "exact" and form != "bare":
+        leaf["Narg"] = rng.choice(["kw", "kw", "pos"])
+    if not leaf.get("bare") and rng.random() < 0.25:
+        leaf["tuple"] = True
+    return sup
+
+
 def gen_leaf(U, rng, kind, n_target=None, ts=None, qs=None):
     leaf = {"kind": kind, "seed": rng.randrange(2 ** 31), "cplx": rng.random() < 0.3, "factor": list(rng.choice(FACTORS))}
     if kind == "product_mps":
-        leaf["ts"] = [list(t) for t in ts]
+        leaf["ts"] = choose_product_form(U, rng, leaf, ts, lambda: rng.choice(U.charges()))
     elif kind == "random_mps":
         leaf["n"] = list(n_target)
         leaf["D"] = rng.choice([1, 2, 3, 4, 5])
         leaf["sigma"] = rng.choice([1, 2])
     elif kind == "product_mpo" and qs is not None:
-        leaf["qs"] = [[int(v) for v in q] for q in qs]      # prescribed local operator charges
+        # prescribed local operator charges
+        leaf["qs"] = choose_product_form(U, rng, leaf, [[int(v) for v in q] for q in qs], lambda: rand_opcharge(U, rng))
     elif kind == "product_mpo":
         # local operators of (mostly) zero charge; some charged ones
-        qs = []
-        for _ in range(U.N):
-            if rng.random() < 0.7 or U.cfg.sym.NSYM == 0:
-                qs.append(list(U.cfg.sym.zero()))
-            else:
-                a, b = rng.choice(U.charges()), rng.choice(U.charges())
-                q = U.cfg.sym.add_charges(tuple(a), tuple(b), signatures=(1, -1), new_signature=1)
-                qs.append([int(v) for v in q])
-        leaf["qs"] = qs
+        def one():
+            return list(U.cfg.sym.zero()) if (rng.random() < 0.7 or U.cfg.sym.NSYM == 0) else rand_opcharge(U, rng)
+        leaf["qs"] = choose_product_form(U, rng, leaf, [one() for _ in range(U.N)], one)
     elif kind in ("random_mpo", "pbc"):
         leaf["D"] = rng.choice([1, 2, 3, 4])
         leaf["sigma"] = rng.choice([1, 2])
@@ -443,8 +527,21 @@ def gen_case(rng, quick, flavour):
         return any(x[n].size == 0 for n in range(N))
 
     def push_leaf(leaf):
+        if "gen_exception" in case:
+            return None
         try:
-            x = build_leaf(U, leaf)
+            if leaf["kind"] in ("product_mps", "product_mpo"):
+                product_locals(U, leaf)     # LeafRejected: no such local operator (generator's proposal, not the real code)
+            try:
+                x = build_leaf(U, leaf)
+                if x.N != N:
+                    raise ValueError(f"{x.N} sites returned, {N} requested")
+            except Exception as e:
+                if leaf["kind"] in ("product_mps", "product_mpo"):
+                    # every call form proposed for a product leaf is documented: the failure is reported by run_case
+                    case["leaves"].append(leaf)
+                    case["gen_exception"] = f"{type(e).__name__}: {e}"
+                return None
         except Exception:
             return None
         case["leaves"].append(leaf)
@@ -454,6 +551,10 @@ def gen_case(rng, quick, flavour):
 
     # ---- leaves ---------------------------------------------------------------------------
     ts = rand_charge(U, rng)
+    if N >= 2 and rng.random() < 0.3:
+        # a repeated pattern (period 1..N-1, not necessarily a divisor of N): product leaves may then be requested from fewer tensors
+        per = rng.randint(1, N - 1)
+        ts = [ts[n % per] for n in range(N)]
     ntot = total_charge(U, ts)
     if flavour == "sectors":
         # two product configurations ts -> ts2; the local operator charges qs map one onto the other, so that the charged
@@ -497,6 +598,8 @@ def gen_case(rng, quick, flavour):
         if rng.random() < 0.35 and flavour == "mps":
             push_leaf(gen_leaf(U, rng, "pbc"))
     nleaves = len(objs)
+    if "gen_exception" in case:
+        return case                  # a documented product_mps / product_mpo call failed: run_case reports it
     if nleaves == 0:
         return None
 
@@ -716,13 +819,39 @@ def run_case(ctx, case, model=True):
     # ---- leaves: reference = NumPy contraction of the leaf's own site tensors ----------------------
     leaf_arrays = []
     for li, leaf in enumerate(case["leaves"]):
-        x = build_leaf(U, leaf)
+        isproduct = leaf["kind"] in ("product_mps", "product_mpo")
+        if isproduct:
+            form = product_form(leaf, N)
+            try:
+                x = build_leaf(U, leaf)
+            except Exception as e:
+                fail(f"c06:{leaf['kind']}:exception", f"{leaf['kind']} of leaf {li} (call form {form}: {len(leaf.get('ts', leaf.get('qs')))} "
+                     f"tensors, N {'given' if leaf.get('Narg') else 'default'}) raised {type(e).__name__}: {e}", {"leaf": li})
+                return None
+            if x.N != N:
+                fail(f"c06:{leaf['kind']}:sites", f"{leaf['kind']} of leaf {li} (call form {form}) has {x.N} sites, {N} requested", {"leaf": li})
+                return None
+        else:
+            x = build_leaf(U, leaf)
         per = leaf["kind"] == "pbc"
         arrs = site_arrays(U, x, periodic=per)
         leaf_arrays.append(arrs)
         fac = Fraction(*leaf["factor"])
         ref = np_contract(arrs, float(fac), x.nr_phys, periodic=per)
         ab = np_contract([np.abs(a) for a in arrs], float(fac), x.nr_phys, periodic=per)
+        if isproduct:
+            # 'product states represent exactly the corresponding dense object': the outer product of the SUPPLIED local tensors,
+            # assigned to consecutive sites from the first one and cyclically iterated (integer data, dyadic factor: exact).  From
+            # here on the leaf is that dense object, so to_tensor() of the leaf and everything derived from it are measured against it.
+            pref, pab = product_reference(U, leaf)
+            ctx.count("leaf:product-form:" + form)
+            if pref.shape != ref.shape or not np.array_equal(pref, ref):
+                err = float(np.max(np.abs(pref - ref))) if pref.shape == ref.shape else float("inf")
+                fail(f"c06:{leaf['kind']}:dense", f"{leaf['kind']} of leaf {li} (call form {form}: {len(leaf.get('ts', leaf.get('qs')))} tensors "
+                     f"supplied for N={N} sites, charges {leaf.get('ts', leaf.get('qs'))}) does not represent the product of the supplied "
+                     f"tensors assigned to consecutive sites (cyclically): max|diff|={err!r}", {"leaf": li})
+                return None
+            ref, ab = pref, pab
         objs.append(x); refs.append(ref); absr.append(ab); nrp.append(x.nr_phys); exact.append(True); isp.append(per)
         dexp.append(_l2(leaf["factor"][1]))
         ctx.count(f"leaf:{leaf['kind']}")
@@ -1188,6 +1317,85 @@ def fixed_sector_cases():
     return out
 
 
+def fixed_product_cases():
+    """one per-site configuration (pattern of period p) requested from product_mps / product_mpo in every documented call form:
+    exactly N tensors (N default / given, list / tuple), more tensors than sites (surplus ignored), fewer (cyclic filling, p need
+    not divide N), one bare tensor; all forms must be the same kind of state (they are summed, overlapped and acted upon)"""
+    out = []
+    for (cls, sym, kw, N, p) in [("Spin12", "U1", {}, 1, 1), ("SpinlessFermions", "U1", {}, 2, 1), ("Spin1", "Z3", {}, 3, 2),
+                                  ("SpinfulFermions", "U1xU1", {}, 3, 2), ("Spin12", "dense", {}, 5, 2), ("SpinlessFermions", "Z2", {}, 4, 3),
+                                  ("Qdit", "dense", {"d": 3}, 2, 1)]:
+        uni = {"ops": cls, "sym": sym, "kw": kw, "N": N}
+        U = Universe(uni)
+        ch = [list(c) for c in U.charges()]
+        sub = lambda b, a: [int(v) for v in U.cfg.sym.add_charges(tuple(b), tuple(a), signatures=(1, -1), new_signature=1)]
+        pat = [ch[-1]] if p == 1 else [ch[(i + 1) % len(ch)] for i in range(p)]
+        # local operator charges that map the pattern onto another configuration (the product does not vanish by symmetry)
+        qpat = [sub(ch[0], ch[-1])] if p == 1 else [sub(ch[i % len(ch)], ch[(i + 1) % len(ch)]) for i in range(p)]
+        eff, qeff = [pat[n % p] for n in range(N)], [qpat[n % p] for n in range(N)]
+        zero = [int(v) for v in U.cfg.sym.zero()]
+        lf = lambda kind, seed, cplx, fac, **k: dict({"kind": kind, "seed": seed, "cplx": cplx, "factor": fac}, **k)
+        L = [lf("product_mps", 31, False, [1, 1], ts=eff),
+             lf("product_mps", 32, True, [2, 1], ts=eff, Narg="kw", tuple=True),
+             lf("product_mps", 33, False, [1, 2], ts=eff + [ch[0]], Narg="pos"),
+             lf("product_mps", 34, True, [3, 1], ts=eff + [ch[-1], ch[0]] + eff, Narg="kw")]
+        if p < N or N == 1:
+            L.append(lf("product_mps", 35, False, [5, 4], ts=pat, Narg="kw", bare=(p == 1)))
+        if N == 1:
+            L.append(lf("product_mps", 36, True, [1, 1], ts=pat, bare=True))
+        M = [lf("product_mpo", 41, False, [1, 1], qs=qeff),
+             lf("product_mpo", 42, True, [1, 2], qs=qeff + [zero, qpat[0]], Narg="kw"),
+             lf("product_mpo", 43, False, [3, 1], qs=qeff + qeff, Narg="pos", tuple=True)]
+        if p < N or N == 1:
+            M.append(lf("product_mpo", 44, False, [2, 1], qs=qpat, Narg="kw", bare=(p == 1)))
+        nl, nm = len(L), len(M)
+        amps = [[1, 0, 1], [0, 1, 1], [-2, 0, 1], [3, 4, 1], [1, 0, 2], [-1, 0, 1]]
+        s0 = nl + nm
+        steps = [{"f": "add", "a": list(range(nl)), "amps": amps[:nl]},                           # s0: sum of all forms (states)
+                 {"f": "add", "a": list(range(nl, nl + nm)), "amps": amps[:nm]},                  # s0+1: sum of all forms (operators)
+                 {"f": "matmul", "a": [s0 + 1, s0], "opr": True},                                 # s0+2
+                 {"f": "matmul", "a": [nl + 1, 2], "opr": True},                                  # s0+3: 'longer' operator on 'longer' state
+                 {"f": "H", "a": [nl + nm - 1], "prop": True},                                    # s0+4
+                 {"f": "sub", "a": [nl - 1, 0]}]                                                  # s0+5
+        obs = [{"o": "overlap", "bra": 0, "ket": 2, "bonds": True},
+               {"o": "overlap", "bra": 3, "ket": nl - 1, "bonds": True},
+               {"o": "overlap", "bra": nl, "ket": nl + nm - 1, "bonds": False},
+               {"o": "mpo", "bra": s0 + 3, "ops": [nl + 1], "ket": 2, "bonds": True, "aslist": False},
+               {"o": "mpo", "bra": s0 + 2, "ops": list(range(nl, nl + nm)), "ket": s0, "bonds": False, "aslist": True},
+               {"o": "from_tensor", "x": 3, "canonize": "first"},
+               {"o": "zipper", "a": nl + 2, "b": 1}]
+        out.append({"kind": "prog", "uni": uni, "flavour": "fixed-product", "leaves": L + M, "steps": steps, "obs": obs})
+    return out
+
+
+def identity_probe(ctx, only=None):
+    """the harness itself builds on I = product_mpo(ops.I(), N) (one bare operator, cyclically repeated): before anything else it has to
+    be a complete MPO whose dense matrix is the identity (exact) — otherwise this is reported as a violation of the property
+    ('product states represent exactly the corresponding dense object') instead of crashing the harness later"""
+    import yastn
+    import yastn.tn.mps as mps
+    for (cls, sym, kw) in UNIVERSES:
+        for N in (1, 2, 3):
+            case = {"kind": "identity-probe", "ops": cls, "sym": sym, "kw": kw, "N": N}
+            if only is not None and {k: only.get(k) for k in case} != case:
+                continue
+            try:
+                ops = getattr(yastn.operators, cls)(sym=sym, **kw)
+                lp = ops.I().get_legs(axes=0)
+                I = mps.product_mpo(ops.I(), N)
+                t = I.to_tensor()
+                arr = t.to_numpy(legs={i: (lp if t.s[i] == lp.s else lp.conj()) for i in range(t.ndim)})
+                ok = I.N == N and arr.ndim == 2 * N and np.array_equal(to_mat(None, arr), np.eye(sum(lp.D) ** N))
+                what = "is not the identity operator on N sites"
+            except Exception as e:
+                ok, what = False, f"raised {type(e).__name__}: {e}"
+            ctx.count("identity-probe:" + ("ok" if ok else "failed"))
+            if not ok:
+                ctx.fail("oracle", "c06:product_mpo:identity", f"[{cls}/{sym}/N{N}] product_mpo(ops.I(), N={N}) {what}", case=case, concrete=True)
+                return False
+    return True
+
+
 def malformed(ctx):
     """error branches of add/multiply (outside the property: recorded, compared with the model's error branch only)"""
     import yastn
@@ -1300,7 +1508,10 @@ def run(ctx):
     ctx.extra["yastn_path"] = yastn.__file__
     ctx.rule = ("typed random expression DAGs over real MpsMpoOBC objects: universe = (Spin12|Spin1|SpinlessFermions|SpinfulFermions|Qdit) x every "
                 "symmetry the class supports, N=1..7 (MPS, dense size capped) / 1..5 (MPO); leaves = product_mps / product_mpo (charged local "
-                "operators) / random_mps (non-zero total charge of a random product configuration, D_total 1..5) / random_mpo / periodic MPO, all "
+                "operators; requested in every documented call form: exactly N tensors with N default or given, MORE tensors than sites "
+                "with N given, FEWER tensors = a period of the configuration (30% of the configurations are periodic, period need not "
+                "divide N), one bare tensor; list or tuple, N by keyword or position; compared exactly with the outer product of the "
+                "supplied local tensors n mod Nv, n = 0..N-1) / random_mps (non-zero total charge of a random product configuration, D_total 1..5) / random_mpo / periodic MPO, all "
                 "refilled with small non-zero integers (30% complex), factor in {1,2,1/2,3,5/4,3/8}; 3-10 steps drawn from add (1-4 terms, "
                 "amplitudes of mixed sign/phase incl. 0, repeated operands), +, -, scalar *, numpy-scalar *, /, unary -, @ and multiply (MPO@MPS, "
                 "MPO@MPO), conj, T/transpose, H/conjugate_transpose, reverse_sites, copy, clone, shallow_copy, factor rescaling; operands are "
@@ -1325,9 +1536,12 @@ def run(ctx):
     budget = 45 if ctx.quick else 600
     cap = 1100 if ctx.quick else 5000
     ncases = 150 if ctx.quick else 2500
+    if not identity_probe(ctx):
+        ctx.notes.append("identity MPO from product_mpo(ops.I(), N) is broken: every other case builds on it, nothing else was run")
+        return
     malformed(ctx)
     edge_probes(ctx)
-    fixed = fixed_cases() + fixed_sector_cases()
+    fixed = fixed_cases() + fixed_sector_cases() + fixed_product_cases()
     process(ctx, fixed, cap)
     cases = []
     done = 0
@@ -1376,6 +1590,11 @@ def replay(ctx, obj):
     case = f.get("case") or obj.get("case")
     if case and case.get("kind") == "edge":
         return edge_probes(ctx)
+    if case and case.get("kind") == "identity-probe":
+        ctx.rule = "replay of one stored case"
+        ok = identity_probe(ctx, only=case)
+        print(f"replay: identity probe {case} -> {'ok' if ok else [x.what[:300] for x in ctx.findings]}")
+        return
     if not case or case.get("kind") != "prog":
         return run(ctx)
     ctx.rule = "replay of one stored case"
